@@ -386,6 +386,8 @@ def classes():
                         f.change_drift(market_id=mid, drift=ch["value"], time=market.get_time())
                     elif ch["what"] == "shock":
                         simulator.name2market[ch["market"]].change_fundamental_price(scale=ch["value"])
+                    elif ch["what"] == "shares":
+                        simulator.name2market[ch["market"]].outstanding_shares = ch["value"]
                     taps.emit("fund_change_ret", sim=simulator, change=ch, time=market.get_time())
 
         def hooked_after_step_for_market(self, simulator, market):
